@@ -61,20 +61,27 @@ InfoI == Atom("I")
 InfoJ == Atom("J")
 
 \* the honest segment under attack, a foreign segment (other info, other ASes),
-\* and the legitimate next entry a child AS would append to the honest segment
+\* and the legitimate next entry a child AS would append to the honest segment.
+\* Variant v = 1 (n >= 3): the LAST entry of the honest segment is a copy of the AS entry of the first
+\* AS (same body, honestly signed at its own position) - the signer meets an entry equal to an earlier one.
 BaseIds(n)    == [i \in 1..n |-> i]
+DupIds(n)     == [i \in 1..n |-> IF i = n THEN 1 ELSE i]
 ForeignIds(n) == [i \in 1..n |-> 20 + i]
 \* constant tables (TLC evaluates constant definitions once); Build is prefix-consistent
 BaseAll       == Build(InfoI, BaseIds(NMAX), NMAX)
+DupTab        == [n \in 3..NMAX |-> Build(InfoI, DupIds(n), n)]
 ForeignAll    == Build(InfoJ, ForeignIds(NMAX), NMAX)
-LegitTab      == [n \in 1..NMAX |->
-                    LET pre  == SubSeq(BaseAll, 1, n)
+BaseEs(n, v)  == IF v = 1 THEN DupTab[n] ELSE SubSeq(BaseAll, 1, n)
+LegitTab      == [n \in 1..NMAX |-> [v \in 0..1 |->
+                    IF v = 1 /\ n < 3 THEN <<>> ELSE
+                    LET pre  == BaseEs(n, v)
                         hdr  == Hdr(30, n)
                         body == Atom(30)
-                    IN [body |-> body, hdr |-> hdr, sig |-> Sign(KeyOf(30), hdr, body, InfoI, pre)]]
-Base(n)       == [info |-> InfoI, es |-> SubSeq(BaseAll, 1, n)]
-Foreign(n)    == [info |-> InfoJ, es |-> SubSeq(ForeignAll, 1, n)]
-LegitNext(n)  == LegitTab[n]
+                    IN [body |-> body, hdr |-> hdr, sig |-> Sign(KeyOf(30), hdr, body, InfoI, pre)]]]
+BaseV(n, v)      == [info |-> InfoI, es |-> BaseEs(n, v)]
+Base(n)          == BaseV(n, 0)
+Foreign(n)       == [info |-> InfoJ, es |-> SubSeq(ForeignAll, 1, n)]
+LegitNextV(n, v) == LegitTab[n][v]
 
 HonestResolve(n) == [kid \in (1..n) \cup (21..(20+n)) \cup {30} |-> KeyOf(kid)]
 
@@ -134,7 +141,7 @@ Applicable(t, L, n0, maxlen) ==
     [] t.op \in {"SubstKey", "NoKey"} -> t.a \in 1..n0              \* verifier resolves another / no key for AS a
     [] OTHER -> FALSE
 
-Apply(t, seg, res, n0) ==
+Apply(t, seg, res, n0, v) ==
   CASE t.op = "FlipBody" -> [seg |-> [seg EXCEPT !.es[t.a].body = Toggle(@, t.b)], res |-> res]
     [] t.op = "FlipHdr"  -> [seg |-> [seg EXCEPT !.es[t.a].hdr  = Toggle(@, t.b)], res |-> res]
     [] t.op = "FlipSig"  -> [seg |-> [seg EXCEPT !.es[t.a].sig  = Toggle(@, t.b)], res |-> res]
@@ -144,7 +151,7 @@ Apply(t, seg, res, n0) ==
     [] t.op = "Remove"   -> [seg |-> [seg EXCEPT !.es = RemoveAt(@, t.a)], res |-> res]
     [] t.op = "InsertCopy"    -> [seg |-> [seg EXCEPT !.es = InsertAt(@, t.b, seg.es[t.a])], res |-> res]
     [] t.op = "ExtendForeign" -> [seg |-> [seg EXCEPT !.es = Append(@, Foreign(n0).es[t.a])], res |-> res]
-    [] t.op = "ExtendLegit"   -> [seg |-> [seg EXCEPT !.es = Append(@, LegitNext(n0))], res |-> res]
+    [] t.op = "ExtendLegit"   -> [seg |-> [seg EXCEPT !.es = Append(@, LegitNextV(n0, v))], res |-> res]
     [] t.op = "SubstKey" -> [seg |-> seg, res |-> [res EXCEPT ![t.a] = IF @ = WRONGKEY THEN KeyOf(t.a) ELSE WRONGKEY]]
     [] t.op = "NoKey"    -> [seg |-> seg, res |-> [res EXCEPT ![t.a] = IF @ = NOKEY THEN KeyOf(t.a) ELSE NOKEY]]
 
@@ -157,18 +164,18 @@ Positions(seg) == 1..Len(seg.es)
 VerdictsAgree(seg, res) == \A i \in Positions(seg) : ImplValid(seg, res, i) <=> Valid(seg, res, i)
 
 \* authentic segments: prefixes of the honest base segment, possibly extended by the legitimate child entry
-IsAuthentic(seg, n0) ==
+IsAuthentic(seg, n0, v) ==
   \/ seg.es = <<>>          \* nothing is claimed (the info of an empty segment is not authenticated by anything)
-  \/ \E k \in 1..n0 : seg = [info |-> InfoI, es |-> SubSeq(Base(n0).es, 1, k)]
-  \/ seg = [info |-> InfoI, es |-> Append(Base(n0).es, LegitNext(n0))]
+  \/ \E k \in 1..n0 : seg = [info |-> InfoI, es |-> SubSeq(BaseEs(n0, v), 1, k)]
+  \/ seg = [info |-> InfoI, es |-> Append(BaseEs(n0, v), LegitNextV(n0, v))]
 
 \* if the verifier resolves the right keys and every entry validates, nothing was tampered with
-AcceptedOnlyIfAuthentic(seg, res, n0) ==
-  (res = HonestResolve(n0) /\ \A i \in Positions(seg) : ImplValid(seg, res, i)) => IsAuthentic(seg, n0)
+AcceptedOnlyIfAuthentic(seg, res, n0, v) ==
+  (res = HonestResolve(n0) /\ \A i \in Positions(seg) : ImplValid(seg, res, i)) => IsAuthentic(seg, n0, v)
 
 \* conversely an authentic segment validates completely under the right keys
-AuthenticAccepted(seg, res, n0) ==
-  (res = HonestResolve(n0) /\ IsAuthentic(seg, n0)) => \A i \in Positions(seg) : ImplValid(seg, res, i)
+AuthenticAccepted(seg, res, n0, v) ==
+  (res = HonestResolve(n0) /\ IsAuthentic(seg, n0, v)) => \A i \in Positions(seg) : ImplValid(seg, res, i)
 
 \* a tampered entry invalidates itself and everything after it (valid positions form a prefix)
 ValidIsPrefixClosed(seg, res, n0) ==
